@@ -368,4 +368,48 @@ mod verif_replay_interp {
     fn verif_replay_interp_data_before_global_script() {
         assert_eq!(run(&GLOBAL_SCRIPT.replace("BINDING", "early"), &[]), fin("pass"));
     }
+
+    fn error_doc(content: &str) -> String {
+        format!(
+            r###"<scxml xmlns="http://www.w3.org/2005/07/scxml" initial="s0" version="1.0" datamodel="rfsm-expression">
+ <datamodel><data id="v" expr="1"/></datamodel>
+ <state id="s0">
+  <onentry>{}<raise event="after"/></onentry>
+  <transition event="error.execution" target="s1"/>
+  <transition event="*" target="noerror"/>
+ </state>
+ <state id="s1">
+  <onentry><raise event="probe"/></onentry>
+  <transition event="after" target="restran"/>
+  <transition event="probe" target="pass"/>
+ </state>
+ <final id="pass"/><final id="noerror"/><final id="restran"/>
+</scxml>"###,
+            content
+        )
+    }
+
+    /// C08: an evaluation error in any kind of executable content (value, location, script, send argument, foreach
+    /// array) places error.execution on the internal queue and aborts the remainder of the enclosing block; the session
+    /// carries on
+    #[test]
+    fn verif_replay_interp_evaluation_errors() {
+        for c in [
+            r#"<script>nosuch + 1</script>"#,
+            r#"<script>v = nosuch</script>"#,
+            r#"<script>1 +</script>"#,
+            r#"<log expr="nosuch + 1"/>"#,
+            r#"<log expr="1 +"/>"#,
+            r#"<assign location="v" expr="nosuch + 1"/>"#,
+            r#"<assign location="v" expr="1 +"/>"#,
+            r#"<assign location="nosuch" expr="1"/>"#,
+            r#"<foreach array="nosuch" item="i"><raise event="x"/></foreach>"#,
+            r#"<foreach array="v" item="i"><raise event="x"/></foreach>"#,
+            r#"<send event="e" delayexpr="nosuch"/>"#,
+            r#"<send eventexpr="nosuch"/>"#,
+            r#"<send event="e" targetexpr="nosuch"/>"#,
+        ] {
+            assert_eq!(run(&error_doc(c), &[]), fin("pass"), "content {}", c);
+        }
+    }
 }
